@@ -153,6 +153,17 @@ def _work(job: t.Tuple[t.Any, ...]) -> evid.Local:
                 v = b"a" * n + b"\xe9" + b"b*"
                 rec(L.FilterEquality("cn", v), "eq")
                 rec(L.FilterSubstrings("cn", v, [v], None), "sub")
+        # every value length 1..1100 (block-wise scanners), alone and with a sibling after it
+        for n in range(1, 1101):
+            v = b"A" * n
+            rec(L.FilterAnd([L.FilterEquality("cn", v), L.FilterPresent("objectClass")]), "len")
+            if n % 7 == 0:
+                rec(L.FilterAnd([L.FilterSubstrings("cn", v, [], v[: n // 2 + 1]), L.FilterExtensibleMatch("r", "cn", v, True)]), "len")
+        # attribute descriptions with many options / long names / long oids
+        for a in ["cn;" + ";".join("x-%d" % i for i in range(40)), "a" * 300, "1.2." + ".".join(str(i) for i in range(80)), "cn;lang-" + "e" * 200]:
+            rec(L.FilterEquality(a, b"v"), "attr")
+            rec(L.FilterExtensibleMatch("r" * 200, a, b"v", True), "attr")
+            rec(L.FilterPresent(a), "attr")
         leaf = L.FilterEquality("cn", b")(")
         chain: t.Any = leaf
         for i in range(60):
